@@ -88,20 +88,25 @@ class MathParser:
             if buf.cur():
                 start = buf.cur().pos
 
+        # error marks: from expand_math_section(), and from text parts
+        # like \mbox{...}
+        marks = self.error_toks + [t for t in out
+                    if getattr(t, 'is_error_mark', False)
+                        and not any(t is e for e in self.error_toks)]
         if env.remove:
             txt = self.parser.get_text_direct(out).strip()
             if txt and txt[-1] in self.parser.parms.math_punctuation:
                 out = [defs.TextToken(out[-1].pos, txt[-1], pos_fix=True)]
             else:
                 out = [defs.ActionToken(out[-1].pos)]
-            out = self.error_toks + out
+            out = marks + out
         else:
             if self.parser.parms.math_displayed_simple:
                 txt = self.parser.get_text_direct(out).strip()
                 # NB: an error mark must not get lost
                 out = [defs.ActionToken(start_simple),
                         defs.SpaceToken(start_simple, '  ', pos_fix=True)
-                        ] + self.error_toks + [
+                        ] + marks + [
                         defs.TextToken(start_simple, self.parser.parms.
                                         lang_context.math_repl_display[0],
                                         pos_fix=True)]
